@@ -19,7 +19,7 @@ EXPLANATION = (
     "(mu0, mu1, threshold, y_left, y_right: (1,1); s0, s1: (1,0); t_left, t_right, t_opt, t_dist, i: (0,0)). A clash means the estimate "
     "changes when the waveform is expressed in another unit. sklearn/scipy routines are summarised as type-preserving (relative "
     "tolerances). C17.3: the record is shortened only at its end or by whole slots (start offsets multiples of sps), so the folded data "
-    "stay aligned with the independently built slot time axis. C17.4: the populations handed to shortest_int are selected by value, not cut from the sorted record at a position that depends on the record length alone (a fixed rank assumes equal numbers of ones and zeros). C17.5: the folded record holds exactly the slots the time axis is built for: resampling keeps the slot rate (num*sps == len*sps_resamp, len being the symbolic sample count of the record) and without resampling the record has sps samples per slot of the axis. Decided: these clauses; not decided: accuracy of levels, sigmas, crossings, sampling index (data-dependent numerics).")
+    "stay aligned with the independently built slot time axis. C17.4: the populations handed to shortest_int are selected by value, not cut from the sorted record at a position that depends on the record length alone (a fixed rank assumes equal numbers of ones and zeros). C17.5: the folded record holds exactly the slots the time axis is built for: resampling keeps the slot rate (num*sps == len*sps_resamp, len being the symbolic sample count of the record) and without resampling the record has sps samples per slot of the axis. C17.6: the remainder cut from the record is taken modulo an even multiple of sps (the eye is folded into two-slot traces). Zero-padding FIR/polyphase routines count as mixing the data with a literal 0. Decided: these clauses; not decided: accuracy of levels, sigmas, crossings, sampling index (data-dependent numerics).")
 TRUSTED = ["sklearn KMeans / scipy gaussian_kde / resample are equivariant under a common affine map of homogeneous data", "numpy semantics of mean/std/unique/roll"]
 
 F0, F1 = Fraction(0), Fraction(1)
@@ -518,6 +518,47 @@ def _rank_split(data):
     return None
 
 
+def rule_even_slots(ctx, rule):
+    """the eye is folded into traces of TWO slots (the time axis is `nslots // 2` copies of a two-slot ramp), so the record must be
+    cut to a whole number of two-slot periods: the remainder dropped at the end is taken modulo an even multiple of sps.  With a
+    remainder modulo sps only, a record with an odd number of slots (a full PRBS period) is one slot longer than its time axis."""
+    pkg = ctx.pkg
+    fi = pkg.func("devices.GET_EYE")
+    N = mk_fn("siglen", [S("input.signal")])
+    for noise in ("notnone", "none"):
+        it = Interp(pkg, param_classes={"input": "electrical_signal"}, assumptions={"input.noise": noise, "sps_resamp": ("truth", False)}, no_inline=("shortest_int",))
+        rets = [o for o in it.run(fi) if o.kind == "return" and isinstance(o.value, ObjV)]
+        y = rets[0].value.fields.get("y") if len(rets) == 1 else None
+        if not isinstance(y, Form):
+            ctx.unknown(rule, fi, fi.node, f"GET_EYE [noise {noise}]: folded record", "not produced on a single return path")
+            continue
+        mods = []
+        for a in y.atoms():
+            if a[0] == "idx" and isinstance(a[2], SliceV) and isinstance(a[1], Form) and a[1].sym_name() in ("input.signal", "input.noise") and isinstance(a[2].hi, Form):
+                hi = a[2].hi
+                for cand, sign in ((hi, -1), (N - hi, 1)):          # x[:-(N % M)]   or   x[:N - N % M]
+                    ca = (cand * sign if sign == -1 else cand)
+                    ma = ca.single_atom() if isinstance(ca, Form) else None
+                    if ma is not None and ma[0] == "fn" and ma[1] == "mod" and len(ma[2]) == 2 and vkey(ma[2][0]) == vkey(N):
+                        mods.append((ma[2][1], a))
+                fa = hi.single_atom() if len(hi.terms) == 1 else None   # x[:(N // M) * M]
+                if not mods and isinstance(hi, Form):
+                    for M_ in (2 * S("gv.sps"), S("gv.sps")):
+                        if hi == mk_fn("floordiv", [N, M_]) * M_:
+                            mods.append((M_, a))
+        if not mods:
+            ctx.unknown(rule, fi, rets[0].node, f"GET_EYE [noise {noise}]: truncation of the record", "no end-truncation of the input by a remainder found")
+            continue
+        bad = []
+        for M_, a in mods:
+            q = (M_ / (2 * S("gv.sps"))).rational() if isinstance(M_, Form) else None
+            if q is None or q.denominator != 1 or q <= 0:
+                bad.append(M_)
+        ctx.check(rule, not bad, fi, rets[0].node, f"GET_EYE [noise {noise}]: record cut to whole two-slot periods (remainder modulo {mods[0][0]!r})", "an even multiple of sps",
+                  f"the record is cut by its remainder modulo {bad[0]!r}, which is not an even multiple of sps: a record with an odd number of slots stays one slot longer than the time axis "
+                  "(nslots // 2 two-slot traces), the eye cannot be folded (IndexError) and the OOK receiver that estimates its threshold from the eye returns nothing" if bad else "")
+
+
 def run(ctx):
     pkg = ctx.pkg
     fi = pkg.func("devices.GET_EYE")
@@ -655,8 +696,10 @@ def run(ctx):
             ctx.check("C17.1", t == LEVEL_T or t == ANY, fs_, rets[0].node, "shortest_int result", "two data values (level type)", f"result type {t!r} is not that of the data")
     else:
         ctx.unknown("C17.1", fs_, fs_.node, "shortest_int", "no return")
+    rule_even_slots(ctx, "C17.6")
     check_late_binding(ctx, "C17.2", ["devices.GET_EYE"])
     ctx.require_min("C17.1", 40)
     ctx.require_min("C17.3", 4)
     ctx.require_min("C17.4", 8)
     ctx.require_min("C17.5", 4)
+    ctx.require_min("C17.6", 2)
